@@ -2,6 +2,7 @@
 
 from __future__ import annotations
 
+import ast
 import typing as t
 
 from sa import layout
@@ -65,6 +66,52 @@ def empty_trailer(repo: Repo, chk: Check) -> None:
         okv = len(segs) == 1 and segs[0].kind == "pad" and segs[0].byte == b"\x00"
         chk.ob("O3", site, okv, "auth_value = zero placeholder of the signature size" if okv else f"auth_value placeholder is {av!r}")
     chk.ob("O2", Site.of(f, construct="get_empty_trailer paths"), n >= 1, f"{n} returning path(s)")
+    # the placeholder size is the signature size of *this* security context: queried from self.ctx on this path, or a
+    # per-instance memo of exactly that query - never state shared between providers / contexts
+    from sa.pathsum import Summary
+
+    from .util import args_of
+
+    QUERY = "self.ctx.query_message_sizes().header"
+    cls = repo.cls("_rpc._auth.AuthenticationProvider")
+    memo_ok: t.Dict[str, bool] = {}
+
+    def instance_memo(attr: str) -> bool:
+        """self.<attr> is only ever assigned 0/None or the size query of self.ctx (in any method of the class)."""
+        if attr in memo_ok:
+            return memo_ok[attr]
+        memo_ok[attr] = True
+        ok_all = attr not in cls.class_consts or isinstance(cls.class_consts[attr], ast.Constant)
+        for m in cls.methods.values():
+            for ps2 in Summary(m).paths:
+                for e in ps2.stores():
+                    if ps2.text(e.target) == f"self.{attr}":
+                        v = ps2.text(e.tree)
+                        ok_all = ok_all and (v in ("0", "None", QUERY, f"self.{attr} or {QUERY}") or (v.startswith(f"self.{attr}") and False))
+        memo_ok[attr] = ok_all
+        return ok_all
+
+    def size_ok(ps: t.Any, tree: t.Optional[ast.AST]) -> bool:
+        txt = ps.text(tree)
+        if txt == QUERY:
+            return True
+        if isinstance(tree, ast.BoolOp) and isinstance(tree.op, ast.Or):
+            return all(size_ok(ps, v) for v in tree.values)
+        if isinstance(tree, ast.Attribute) and isinstance(tree.value, ast.Name) and tree.value.id == "self":
+            return instance_memo(tree.attr)
+        return False
+
+    for ps in Summary(f, ["self", "pad_length"]).returning():
+        v = ps.value
+        kws = args_of(repo, f, v) if isinstance(v, ast.Call) else {}
+        av = kws.get("auth_value")
+        size: t.Optional[ast.AST] = None
+        if isinstance(av, ast.BinOp) and isinstance(av.op, ast.Mult):
+            size = av.right if isinstance(av.left, ast.Constant) else av.left
+        elif isinstance(av, ast.Call) and isinstance(av.func, ast.Name) and av.func.id == "bytes" and len(av.args) == 1:
+            size = av.args[0]
+        ok = size is not None and size_ok(ps, size)
+        chk.ob("O3", Site.of(f, ps.exit_node, "signature size of this context"), ok, "placeholder size = self.ctx.query_message_sizes().header (queried now or memoised on this instance)" if ok else f"the placeholder size is {ps.text(size) if size is not None else ps.text(av)}: not the signature size of this provider's own security context (state shared between providers hands one context's size to another: auth_len and frag_len no longer match the bytes sent)")
 
 
 def stub_offsets(repo: Repo, chk: Check) -> Lin:
